@@ -237,7 +237,7 @@ def centres(spec, lv, lo, hi):
     """cell-centre coordinates of a box, per dimension"""
     out = []
     for d in range(spec["ndims"]):
-        dx = spec["dx0"][d] / 2 ** lv
+        dx = spec["dx0"][d] / int(spec.get("ratio", 2)) ** lv
         out.append(spec["geo_low"][d] + (np.arange(lo[d], hi[d] + 1) + 0.5) * dx)
     return out
 
@@ -346,6 +346,17 @@ def _f(x):
     return repr(float(x))
 
 
+def to_ratio4(spec):
+    """a two-level plotfile with refinement ratio 4 out of a properly nested three-level one: its middle level is dropped"""
+    import copy
+    s = copy.deepcopy(spec)
+    assert len(s["levels"]) == 3
+    s["levels"] = [s["levels"][0], s["levels"][2]]
+    s["layout"] = [s["layout"][0], s["layout"][2]]
+    s["ratio"] = 4
+    return s
+
+
 def header_text(spec, nlev=None):
     nd = spec["ndims"]
     nlev_all = len(spec["levels"])
@@ -354,8 +365,9 @@ def header_text(spec, nlev=None):
     sp = " " if style in ("amrex", "extra_ratio") else ""
     fields = spec["fields"]
     z = ",".join("0" for _ in range(nd))
-    grid = [[g * 2 ** lv for g in spec["grid0"]] for lv in range(nlev)]
-    dx = [[x / 2 ** lv for x in spec["dx0"]] for lv in range(nlev)]
+    R = int(spec.get("ratio", 2))
+    grid = [[g * R ** lv for g in spec["grid0"]] for lv in range(nlev)]
+    dx = [[x / R ** lv for x in spec["dx0"]] for lv in range(nlev)]
     geo_high = [spec["geo_low"][d] + spec["dx0"][d] * spec["grid0"][d] for d in range(nd)]
     if spec.get("nominal_hi"):
         # a code that prints the domain bound it was given (0.9) next to box bounds it computes (0.2 + 10 * 0.07 =
@@ -366,7 +378,7 @@ def header_text(spec, nlev=None):
     L.append(" ".join(_f(x) for x in spec["geo_low"]) + sp)
     L.append(" ".join(_f(x) for x in geo_high) + sp)
     nfac = nlev - 1 + (1 if style == "extra_ratio" else 0)
-    L.append(" ".join("2" for _ in range(nfac)) + sp)
+    L.append(" ".join(str(R) for _ in range(nfac)) + sp)
     sh = int(spec.get("idx_shift", 0))          # index of the first cell of the domain at level 0 (negative: index space below zero)
     if sh:
         L.append(" ".join(f"(({','.join(str(sh * 2 ** lv) for _ in range(nd))}) ({','.join(str(g - 1 + sh * 2 ** lv) for g in grid[lv])}) ({z}))"
